@@ -123,8 +123,10 @@ ArgV(a, env, tab, bind) ==
                   THEN (IF a.base.v \in DOMAIN bind THEN bind[a.base.v] ELSE [k |-> "param", v |-> a.base.v])
                   ELSE OfTab(a.base.v, tab)
              ix == IxVal(a.idx, env, bind)
+             ixUnbound == a.idx.k = "param" /\ a.idx.v \notin DOMAIN bind
          IN IF b.k = "param"
             THEN [k |-> "pq", v |-> b.v, idx |-> IF ix.ok THEN ToString(ix.n) ELSE "?"]     \* unbound parameter
+            ELSE IF ixUnbound /\ b.k = "regv" THEN [k |-> "pq", v |-> b.reg, idx |-> a.idx.v]   \* unbound index
             ELSE IF b.k = "regv" /\ ix.ok /\ ix.n >= 0 /\ ix.n < Len(b.elems) THEN Q(b.reg, b.elems[ix.n + 1])
             ELSE BadV("qubit")
     [] OTHER -> BadV("argument")
@@ -275,10 +277,23 @@ LoopInPar(s, inpar) ==
   CASE s.k = "loop" -> inpar \/ LoopInPar(s.body, inpar)
     [] s.k = "blk" -> \E j \in DOMAIN s.body : LoopInPar(s.body[j], inpar \/ s.par)
     [] OTHER -> FALSE
-\* normal form: gates, parallel groups of gates, loops
-FlatBody(prog) == \A j \in DOMAIN prog.body :
-  LET s == prog.body[j] IN
-  s.k \in {"gate", "loop"} \/ (s.k = "blk" /\ s.par /\ \A x \in DOMAIN s.body : s.body[x].k = "gate")
+\* normal form: gates, parallel groups of gates, loops; a subcircuit block stays a block (its annotation must
+\* survive) whose own body is in normal form
+RECURSIVE FlatItems(_)
+FlatItems(ss) == \A j \in DOMAIN ss :
+  LET s == ss[j] IN
+  \/ s.k \in {"gate", "loop"}
+  \/ (s.k = "blk" /\ s.par /\ ~s.sub /\ \A x \in DOMAIN s.body : s.body[x].k = "gate")
+  \/ (s.k = "blk" /\ s.sub /\ ~s.par /\ FlatItems(s.body))
+FlatBody(prog) == FlatItems(prog.body)
+\* the subcircuit blocks of a body in order, each with its count and the schedule of its own body
+RECURSIVE SubShapeSeq(_)
+SubShapeSeq(ss) ==
+  IF ss = <<>> THEN <<>>
+  ELSE LET s == Head(ss) IN
+       (CASE s.k = "blk" /\ s.sub -> << [iters |-> s.iters, sched |-> BagOf(SchedSeq(s.body, 0))] >>
+          [] s.k = "blk" -> SubShapeSeq(s.body)
+          [] OTHER -> <<>>) \o SubShapeSeq(Tail(ss))
 
 \* ---------------------------------------------------------------- static validity (C14, Appendix B.7)
 \* the harness compresses a native table identical to the exact family into a one-element tag
@@ -322,9 +337,22 @@ NoDupNames(prog) ==
   IN /\ \A a, b \in DOMAIN names : a # b => names[a] # names[b]
      /\ \A a, b \in DOMAIN prog.macros : a # b => prog.macros[a].v # prog.macros[b].v
      /\ \A a \in DOMAIN prog.macros : prog.macros[a].v \notin NativeNames(prog)
+\* a meaning contains a definitely bad reference (unbound parameters are not bad: they are checked at expansion)
+RECURSIVE HasBadStrict(_)
+HasBadStrict(m) ==
+  CASE m.k = "BAD" -> TRUE
+    [] m.k = "G" -> \E j \in DOMAIN m.args : m.args[j].k = "bad"
+    [] m.k \in {"L", "U"} -> m.cnt.k = "bad" \/ (m.cnt.k = "num" /\ (~m.cnt.i \/ m.cnt.n < 0)) \/ HasBadStrict(m.c[1])
+    [] OTHER -> \E j \in DOMAIN m.c : HasBadStrict(m.c[j])
+\* the body of every macro (called or not) is valid as far as it does not depend on its parameters
+MacroBodiesOK(prog, ovr) ==
+  LET env == Env(prog, ovr)
+      tab == RegTab(prog, env)
+  IN \A j \in DOMAIN prog.macros : ~HasBadStrict(M(prog.macros[j].body, prog, env, tab, EmptyFn, FALSE, 0))
 \* full static validity of a (program, override) pair
 ValidAll(prog, ovr) ==
   /\ NoDupNames(prog)
+  /\ MacroBodiesOK(prog, ovr)
   /\ LET t == RegTab(prog, Env(prog, ovr)) IN \A r \in DOMAIN t : t[r].ok
   /\ ~HasBad(Meaning(prog, ovr))
   /\ ~SubNestBad(Meaning(prog, ovr), FALSE)
